@@ -227,7 +227,11 @@ func dumpExpr(b *strings.Builder, e Expr) {
 	case *DictLit:
 		b.WriteString("(map")
 		for i, k := range v.Keys {
-			fmt.Fprintf(b, " (kv (str %q) ", k)
+			if i < len(v.Bare) && v.Bare[i] {
+				fmt.Fprintf(b, " (kv (id %q) ", k)
+			} else {
+				fmt.Fprintf(b, " (kv (str %q) ", k)
+			}
 			dumpExpr(b, v.Vals[i])
 			b.WriteString(")")
 		}
